@@ -190,7 +190,8 @@ contract(TR + "query_ast_visitor.call_ResultTTree", props=["C03", "C05", "C09", 
                 2: dict(modifies=["_class_vars"], needs={"L.columns": ["L.built", "L.len"], "L.count": ["L.len"]},
                         invariant=RT_INV + RT_COLS + [("L.appended", "len(class_vars(self)) == g_cv0 + _i and "
                                                                       "all(class_vars(self)[q] == var_names[q - g_cv0][1] for q in range(g_cv0, g_cv0 + _i))")]),
-                3: dict(modifies=CVC_MODIFIES, invariant=RT_INV + RT_COLS + RT_MEMBERS + RT_BOOK + [("L.book", "field(gc_of(self), '_book_block') == old(field(gc_of(self), '_book_block'))")]),
+                3: dict(modifies=CVC_MODIFIES, needs={"L.members": ["L.members", "L.gc", "L.count", "L.appended", "L.len", "L.cvc.members_grow"]},
+                        invariant=RT_INV + RT_COLS + RT_MEMBERS + RT_BOOK + [("L.book", "field(gc_of(self), '_book_block') == old(field(gc_of(self), '_book_block'))")]),
                 4: dict(modifies=["_statements"], ghost_mods=["g_src", "g_clr"], invariant=RT_INV + RT_COLS + RT_MEMBERS + RT_BOOK + RT_CLEAR)})
 
 # ---- per-backend booking / fill statement factories: one virtual contract, every override verified against it -------
